@@ -523,6 +523,22 @@ def run(ctx: Ctx):
     # in markup mode the offsets refer to clean_text(markup, clean_steps) -- the text a caller can compute -- only if that is what Document stores
     from .c19 import rule_document_text
     ctx.guard(rule_document_text, ctx, "R-C02-10")
+    # every metadata offset is `token.end + <a length measured on the re-joined words>`: that arithmetic needs the words between two tokens to
+    # concatenate to exactly the text between them (C12's append_text lemma), and the tokens to come from the very text the offsets index
+    from .c12 import _append_text_identity
+    at = ctx.repo.func("tokenizers.Tokenizer.append_text")
+    if at is not None:
+        okw, whyw = _append_text_identity(at)
+        ctx.ob("R-C02-11", "tokenizers.Tokenizer.append_text/identity", okw, whyw, node=at, mod=ctx.repo.mod("tokenizers"))
+    tk = ctx.repo.func("models.Document.tokenize")
+    if tk is not None:
+        S_ = tk.args.args[0].arg
+        st_ = [x for x in stmts_local(tk.body) if isinstance(x, ast.Assign)]
+        okt = len(st_) == 1 and isinstance(st_[0].value, ast.Call) and isinstance(st_[0].value.func, ast.Attribute) and st_[0].value.func.attr == "tokenize" \
+            and [norm(a) for a in st_[0].value.args] == [f"{S_}.plain_text"]
+        ctx.ob("R-C02-11", "models.Document.tokenize/tokenizes-the-indexed-text", okt,
+               "the tokenizer is given self.plain_text itself -- the text every returned offset refers to -- not a translated or normalised copy (the "
+               "matched text of a token would then differ from the slice at its span)", node=tk, mod=ctx.repo.mod("models"))
     M = AnnotateModel(ctx)
     if M.bal_fn is not None:
         ctx.ob("R-C02-1", f"utils.{M.bal_fn.name}/rebased", M.bal_ok, f"positions of matches on text[a:b] are rebased by a: {M.bal_why}", node=M.bal_fn, mod=M.um)
